@@ -117,7 +117,8 @@ def fieldV (h : Heap) (a : Addr) : Option (FieldO × List (Option ArgO)) :=
 /-- a type without addresses (interfaces / members by name) + the views of its members (fields, or input fields), in order -/
 def typeV (h : Heap) (a : Addr) : Option (TypeO × List (Option (FieldO × List (Option ArgO))) × List (Option ArgO)) :=
   (h.readType a).map fun t => ({ t with fields := [], ifaces := eraseRefs t.ifaces, members := eraseRefs t.members },
-    t.fields.map (fieldV h), t.fields.map (argV h))
+    (match t.kind with | .object | .interface => t.fields.map (fieldV h) | _ => []),
+    (match t.kind with | .input => t.fields.map (argV h) | _ => []))
 
 def dirV (h : Heap) (a : Addr) : Option (DirO × List (Option ArgO)) := (h.readDir a).map fun d => ({ d with args := [] }, d.args.map (argV h))
 
@@ -147,7 +148,8 @@ theorem fieldV_nveq {h h' : Heap} (n : NVeq h h') (a : Addr) : fieldV h' a = fie
 
 def typeOfE (fv : Addr → Option (FieldO × List (Option ArgO))) (av : Addr → Option ArgO) :
     Obj → Option (TypeO × List (Option (FieldO × List (Option ArgO))) × List (Option ArgO))
-  | .type t => some ({ t with fields := [] }, t.fields.map fv, t.fields.map av)
+  | .type t => some ({ t with fields := [] }, (match t.kind with | .object | .interface => t.fields.map fv | _ => []),
+                     (match t.kind with | .input => t.fields.map av | _ => []))
   | _ => none
 
 theorem typeV_erased (h : Heap) (a : Addr) : typeV h a = ((h.read a).map eraseR).bind (typeOfE (fieldV h) (argV h)) := by
